@@ -145,8 +145,10 @@ impl Table {
         index_block_iter.seek(key)?;
         let maybe_raw_handle = index_block_iter.current();
         if maybe_raw_handle.is_none() {
-            // Offset to the key does not exist in the index so the key is not stored in this file
-            return Ok(None);
+            // Offset to the key does not exist in the index so the key is not stored in this file.
+            // This is different from the key being deleted so that callers continue to search
+            // older files.
+            return Err(ReadError::KeyNotFound);
         }
 
         let (_key, raw_handle) = maybe_raw_handle.unwrap();
